@@ -86,6 +86,7 @@ def run_one(choices, params):
         bg = rpyc.BgServingThread(conn)
         caller_id = sim.current.id
         keep = []
+        deferred = []
         try:
             for i, p in enumerate(plan):
                 if p["gap"]:
@@ -127,8 +128,9 @@ def run_one(choices, params):
                         if tainted:
                             info["known"] += 1
                             sim.count("c14:stall-known")
-                            raise core.Violation("spurious-timeout", "request %d timed out after %ss although its reply was sent at +%.3fs"
-                                                 % (i, timeout, sent_at - t0), sig=thr.D7_SIG)
+                            deferred.append(core.Violation("spurious-timeout", "request %d timed out after %ss although its reply was sent at "
+                                                           "+%.3fs" % (i, timeout, sent_at - t0), sig=thr.D7_SIG))
+                            continue
                         raise core.Violation("spurious-timeout", "request %d timed out after %ss although its reply was sent at +%.3fs and no "
                                              "release/dispatch window was involved; caller blocked in %r when the reply finished dispatching"
                                              % (i, timeout, sent_at - t0, where), sig=str(where and where[0]))
@@ -136,8 +138,9 @@ def run_one(choices, params):
                     if tainted:
                         info["known"] += 1
                         sim.count("c14:stall-known")
-                        raise core.Violation("stall", "request %d: reply finished dispatching at t=%.3f, caller returned at t=%.3f (+%.3fs, "
-                                             "timeout %ss)" % (i, td, t1, t1 - td, timeout), sig=thr.D7_SIG)
+                        deferred.append(core.Violation("stall", "request %d: reply finished dispatching at t=%.3f, caller returned at t=%.3f "
+                                                       "(+%.3fs, timeout %ss)" % (i, td, t1, t1 - td, timeout), sig=thr.D7_SIG))
+                        continue
                     raise core.Violation("stall", "request %d: reply finished dispatching at t=%.3f, caller returned at t=%.3f (+%.3fs) and the "
                                          "caller did not enter its wait inside a release/dispatch window; it was blocked in %r"
                                          % (i, td, t1, t1 - td, where), sig=str(where and where[0]))
@@ -150,6 +153,8 @@ def run_one(choices, params):
                 conn._channel.close()
             except Exception:
                 pass
+        if deferred:
+            raise deferred[0]
         return True
 
     cfg = net.NetCfg()
